@@ -21,8 +21,10 @@ def run(ctx):
     nrep = nprob = 0
     for limit in (0, 2, 4, 6):
         # with limit 2 the first execution already hits the limit, so "limit hit, Uncancel, re-execute" (3 executions) is explored
-        cfg = ("CONSTANTS\n  K = 3\n  MaxExec = %d\n  Limit = %d\n  MaxCancels = %d\nSPECIFICATION Spec\n"
-               "INVARIANTS UnderLimit Emit\nPROPERTIES FirstWins NoRunAfterCancel Stops\n" % (3 if limit == 2 else 2, limit, 1 if limit == 2 else 2))
+        # between executions the host may set another limit once: below, at and above the steps already counted
+        relimits = "{}" if limit == 2 else "{2, 4, 6, 9}"
+        cfg = ("CONSTANTS\n  K = 3\n  MaxExec = %d\n  Limit = %d\n  MaxCancels = %d\n  Relimits = %s\nSPECIFICATION Spec\n"
+               "INVARIANTS UnderLimit Emit\nPROPERTIES FirstWins NoRunAfterCancel Stops\n" % (3 if limit == 2 else 2, limit, 1 if limit == 2 else 2, relimits))
         r = ctx.tlc_ok("C07MC", "C07MC_gen.cfg", workers=4, timeout=1200, cfg_text=cfg)
         hs = sorted({l[2:-1].replace('\\"', '"') for l in r["out"].split("\n") if l.startswith('"H{')})
         if len(hs) < 50:
